@@ -370,6 +370,42 @@ def index_below_len(p, bb, ix, coll, strict=True):
     return False
 
 
+def never_ahead(ctx, body, a, x):
+    """loop invariant a <= x for two variables carried by the same loop: they start equal (or a's constant start is not above x's), and every way
+    round the loop either leaves both alone, or sets both to the same value, or leaves `a` alone and moves only `x` forward (x += k, k >= 0).
+    (An overflow of x += k is its own panic site.)"""
+    a, x = strip_refs(a), strip_refs(x)
+    if not (isinstance(a, tuple) and isinstance(x, tuple) and a and x and a[0] == "havoc" and x[0] == "havoc" and len(a) > 3 and len(x) > 3 and a[2] == x[2]):
+        return False
+    la, lx, h = a[1], x[1], a[2]
+    if la == lx:
+        return True
+    ia, ix = const_int(a[3]), const_int(x[3])
+    if not ((ia is not None and ix is not None and 0 <= ia <= ix) or (a[3] is not None and strip_refs(a[3]) == strip_refs(x[3]))):
+        return False
+    if body.f["locals"][la]["ty"] != "usize" or body.f["locals"][lx]["ty"] != "usize":
+        return False
+    backs = [q for q in (ctx.paths(body.key) or []) if q.end[0] == "back" and q.end[1] == h]
+    if not backs:
+        return False
+
+    def same(v, l):
+        return v is None or (isinstance(v, tuple) and v[0] == "havoc" and v[1] == l and v[2] == h)
+    for q in backs:
+        va, vx = q.env.get(la), q.env.get(lx)
+        if same(va, la):
+            fwd = isinstance(vx, tuple) and vx[0] == "binop" and vx[1] == "Add" and same(vx[2], lx) and vx[2] is not None and (const_int(vx[3]) or -1) >= 0
+            if same(vx, lx) or fwd:
+                continue
+            return False
+        if va is not None and vx is not None and strip_refs(va) == strip_refs(vx):
+            continue
+        if vx is not None and isinstance(vx, tuple) and vx[0] == "havoc" and vx[1] == la and vx[2] == h and same(va, la):
+            continue
+        return False
+    return True
+
+
 def cursor_bounded(ctx, body, p, t, coll):
     """t is a loop-carried cursor that can never exceed len(coll) at its loop header: it starts at most there (established before the loop), and it
     is only ever incremented by one on iterations that first checked cursor < len(coll)"""
@@ -834,6 +870,9 @@ def discharge(ctx, body, p, ev, kind):
                             l, r = r, l
                             op = {"Gt": "Lt", "Ge": "Le"}[op]
                         if l == a0 and ((b == LEN and length_of(r) is not None and length_of(r) == c0) or (b != LEN and r == strip_refs(b))):
+                            return True
+                        # a <= x by the loop's invariant and x < b on this path
+                        if ((b == LEN and length_of(r) is not None and length_of(r) == c0) or (b != LEN and r == strip_refs(b))) and ctx is not None and never_ahead(ctx, body, a0, l):
                             return True
                     return False
                 # bytes[a..b] with a <= b established on the path and b a position of the collection (its length, or the enumerate() index)
